@@ -52,24 +52,43 @@ def sh(cmd, cwd=None, timeout=None):
 
 
 def strip_comments(src):
+    """remove Lean comments; string and character literals are copied verbatim (they may contain `--` or `/-`)"""
     out = []
     i = 0
     depth = 0
     n = len(src)
     while i < n:
-        if src.startswith("/-", i):
+        if depth:
+            if src.startswith("/-", i):
+                depth += 1
+                i += 2
+            elif src.startswith("-/", i):
+                depth -= 1
+                i += 2
+            else:
+                i += 1
+            continue
+        c = src[i]
+        if c == '"':
+            j = i + 1
+            while j < n and src[j] != '"':
+                j += 2 if src[j] == "\\" else 1
+            out.append(src[i:j + 1])
+            i = j + 1
+        elif c == "'" and i + 2 < n and src[i + 1] != "\\" and src[i + 2] == "'":
+            out.append(src[i:i + 3])
+            i += 3
+        elif c == "'" and i + 3 < n and src[i + 1] == "\\" and src[i + 3] == "'":
+            out.append(src[i:i + 4])
+            i += 4
+        elif src.startswith("/-", i):
             depth += 1
             i += 2
-        elif depth and src.startswith("-/", i):
-            depth -= 1
-            i += 2
-        elif depth:
-            i += 1
         elif src.startswith("--", i):
             j = src.find("\n", i)
             i = n if j < 0 else j
         else:
-            out.append(src[i])
+            out.append(c)
             i += 1
     return "".join(out)
 
